@@ -65,13 +65,49 @@ def oracle(case):
     return None
 
 
+def race_case(seed, i, engine):
+    """two compactions interleaved at their storage calls: an older request that read the record before a newer
+    one was accepted must not overwrite it afterwards"""
+    r = rng_for(seed, "c08race/%d" % i)
+    lines = [hist.cfg_line(engine), "gated 1"]
+    n = 8
+    for j in range(n):
+        lines += ["start p%d create %s %s" % (j + 1, hx(PREFIX + b"/k%d" % j), hx(b"v")), "step p%d" % (j + 1), "step p%d" % (j + 1), "step p%d" % (j + 1)]
+    lines.append("rev")
+    old, new = sorted(r.sample(range(hist.INIT + 1, hist.INIT + n + 1), 2))
+    first_steps = r.randint(0, 3)
+    lines += ["start k91 compact %d" % old] + ["step k91"] * first_steps
+    lines += ["start k92 compact %d" % new] + ["step k92"] * 6 + ["floor"]
+    lines += ["step k91"] * 6 + ["floor"]
+    lines.append("list %s %s %d 0" % (hx(PREFIX + b"/"), hx(PREFIX + b"0"), old))
+    return core.Case("backend", lines, {"engine": engine, "race": True}, model_suite="sched")
+
+
+def race_oracle(case):
+    accepted = 0
+    floor_rec = 0
+    for i, (line, out) in enumerate(zip(case.lines, case.impl)):
+        t, o = line.split(), out.split()
+        if o[:1] == ["done"] and len(o) >= 4 and o[2] == "compact" and o[3].isdigit():
+            accepted = max(accepted, int(o[3]))
+        if t[0] == "floor" and len(o) == 2 and o[1] != "-":
+            v = int(o[1][:16], 16)
+            if v < floor_rec:
+                return ("line %d: stored compaction record fell from %d to %d (two interleaved compaction requests)" % (i + 1, floor_rec, v), "floor-lowered-race")
+            floor_rec = v
+        if t[0] == "list" and o[1] != "err" and int(t[3]) != 0 and int(t[3]) < accepted:
+            return ("line %d: %s answered with data although a compaction at %d was accepted" % (i + 1, line, accepted), "read-below-floor")
+    return None
+
+
 def check(rep, tier, seed):
     n_hist, n_rounds = (24, 8) if tier == "quick" else (600, 14)
     cases = [gen_case(seed, i, ENGINES[i % len(ENGINES)], n_rounds) for i in range(n_hist)]
+    cases += [race_case(seed, i, ENGINES[i % 3]) for i in range(12 if tier == "quick" else 300)]
     core.run_cases(cases)
     for c in cases:
         rep.count_case(c)
-        hit = oracle(c)
+        hit = race_oracle(c) if c.meta.get("race") else oracle(c)
         if hit:
             if core.handle_oracle_hit(rep, "C08", hit[1], c, hit[0], hit[1], shrink_fn=lambda x: oracle(x) is not None):
                 return
